@@ -6,6 +6,8 @@ TECH = "bounded symbolic execution of the real coba code on z3-backed proxy valu
 NOTE = "Trusted: z3 5.1, CPython, the symx proxies (validated by ./check --setup self-tests and by replaying every counterexample without proxies). Bounds per obligation are in the evidence file; nothing outside them is claimed."
 
 CLAIMED = {
+ 'C20': dict(design='C20', text="InteractionsEncoder.encode executed on symbolic integer features; every output entry is a z3 polynomial and is matched one-to-one with the reference monomials by z3-decided polynomial identities valid for all integers; structure (term list, lengths, dense/sparse/string/scalar/None kinds, encoder re-use across calls) enumerated within bounds.",
+             note="degree<=4, length<=4 quick (5,5 thorough); absent namespaces and repeated identical terms outside the claim"),
  'C17': dict(design='C17', text="Table.insert/index/where/groupby/copy run on symbolic integer cells; orderings are decided by z3 inside the real sorted/bisect calls; every operator, form, index column list and short operation history within the bounds is compared with a row-by-row list model. Bounded (rows<=3 quick, <=4 thorough), exhaustive within the bound.",
              note="cells int[-1,1] or Missing; 'match'/regex outside the claim; Missing ordering reference = the table's own scan path"),
 }
